@@ -39,6 +39,7 @@ fn rt<T>(msg: &str) -> Result<T, Ctl> {
 pub struct GenState {
     pub fut: Option<Fut>,
     pub slot: Rc<RefCell<Option<V>>>,
+    pub hint: Option<Hint>,
 }
 
 pub struct Interp {
@@ -47,7 +48,7 @@ pub struct Interp {
     pub fuel: Cell<u64>,
     pub type_checks: bool,
     /// every generator's yield slot stack: the innermost running generator receives the yield
-    pub gen_stack: RefCell<Vec<Rc<RefCell<Option<V>>>>>,
+    pub gen_stack: RefCell<Vec<(Rc<RefCell<Option<V>>>, Option<Hint>)>>,
     free_vars: RefCell<HashMap<usize, Rc<Vec<Name>>>>,
 }
 
@@ -889,7 +890,10 @@ pub fn eval(ip: Rc<Interp>, e: X, env: Env) -> Fut {
                 let val = eval(ip.clone(), v.clone(), env.clone()).await?;
                 let slot = ip.gen_stack.borrow().last().cloned();
                 match slot {
-                    Some(slot) => {
+                    Some((slot, hint)) => {
+                        if let Some(h) = &hint {
+                            check_hint(&ip, &val, h)?;
+                        }
                         *slot.borrow_mut() = Some(val);
                         YieldOnce(false).await;
                         Ok(V::Null)
@@ -1005,6 +1009,7 @@ pub fn hint_matches(ip: &Rc<Interp>, v: &V, h: &Hint) -> Result<bool, Ctl> {
     Ok(match &*h.name {
         "Any" => true,
         "Callable" => match v {
+            V::Func(f) if f.def.is_gen => return Err(Ctl::Unmodelled("Callable hint on a generator function".into())),
             V::Func(_) | V::Native(_) => true,
             V::Map(m) => m.has_meta("@call"),
             _ => false,
@@ -1942,14 +1947,13 @@ pub fn call_value(ip: Rc<Interp>, f: V, args: Vec<V>, this: Option<V>) -> Fut {
                     let body = c.def.body.clone();
                     let hint = c.def.out_hint.clone();
                     let fut: Fut = Box::pin(async move {
-                        let _ = hint;
                         match eval_block(ip2, body, env).await {
                             Ok(_) | Err(Ctl::Return(_)) => Ok(V::Null),
                             Err(e) => Err(e),
                         }
                     });
                     Ok(V::Iter(Rc::new(IterObj {
-                        state: RefCell::new(IterState::Gen(Box::new(GenState { fut: Some(fut), slot }))),
+                        state: RefCell::new(IterState::Gen(Box::new(GenState { fut: Some(fut), slot, hint }))),
                     })))
                 } else {
                     let r = match eval_block(ip.clone(), c.def.body.clone(), env).await {
@@ -2070,15 +2074,15 @@ pub fn iter_next(ip: Rc<Interp>, it: &Rc<IterObj>) -> Pin<Box<dyn Future<Output 
         let gen_parts = {
             let mut st = it.state.borrow_mut();
             match &mut *st {
-                IterState::Gen(g) => Some((g.fut.take(), g.slot.clone())),
+                IterState::Gen(g) => Some((g.fut.take(), g.slot.clone(), g.hint.clone())),
                 _ => None,
             }
         };
-        if let Some((fut, slot)) = gen_parts {
+        if let Some((fut, slot, hint)) = gen_parts {
             let Some(mut fut) = fut else {
                 return Ok(None);
             };
-            ip.gen_stack.borrow_mut().push(slot.clone());
+            ip.gen_stack.borrow_mut().push((slot.clone(), hint));
             let waker = noop_waker();
             let mut cx = Context::from_waker(&waker);
             let polled = fut.as_mut().poll(&mut cx);
